@@ -667,6 +667,7 @@ def kernel_interpolation(P, rep, rule="I1.kernel"):
         rep.unknown(rule, "table parameters of distance_point_from_curved_planes not found")
         return
     n = 0
+    interps = set()
     for x in F.walk():
         if not (x.get("k") == "DeclRefExpr" and x.get("r") in tabs):
             continue
@@ -706,17 +707,39 @@ def kernel_interpolation(P, rep, rule="I1.kernel"):
                                 if a_t == a2_t and "original_current_section" in a_t and b_t == a_t.replace("original_current_section", "original_next_section") \
                                         and fr.get("n", "").startswith("fraction"):
                                     ok = True
+                                    interps.add(a["i"])
                                 elif a_t == a2_t:
                                     why = "interpolates %s towards %s" % (a_t[:50], b_t[:50])
                 if ok:
+                    break
+        if not ok:
+            # handed to a single-return file-local helper: judge the call with the body substituted, algebraically
+            for a in F.ancestors(top):
+                if a.get("k") == "CallExpr" and norm.helper_call(P, F, a) is not None:
+                    import sympy as sp
+                    E = sp.expand(norm.Sym(P, F, inline_locals=False)(a))
+                    fs = [q for q in E.free_symbols if str(q).startswith("fraction")]
+                    cs = [q for q in E.free_symbols if str(q).startswith("original_current_section@")]
+                    ns = [q for q in E.free_symbols if str(q).startswith("original_next_section@")]
+                    if len(fs) == 1 and len(cs) == 1 and len(ns) == 1:
+                        try:
+                            deg = sp.Poly(E, fs[0]).degree()
+                        except Exception:
+                            deg = -1
+                        A0, B0 = sp.expand(E.subs(fs[0], 0)), sp.expand(E.subs(fs[0], 1))
+                        if deg == 1 and A0.has(cs[0]) and not A0.has(ns[0]) and sp.expand(A0.xreplace({cs[0]: ns[0]}) - B0) == 0:
+                            ok = True
+                            interps.add(a["i"])
+                        else:
+                            why = "handed to %s, which does not interpolate cur + f*(next - cur)" % R(a)[:50]
                     break
         if ok:
             continue
         rep.violation(rule, "%s is %s (line %s)" % (R(top)[:70], why, x.get("l")), F.nloc(x), F.qn, norm.render(P, F.parent.get(top["i"]) or top)[:140],
                       "between two coordinates the geometry is not the convex combination of the two adjacent sections", key="%s|%s" % (rule, R(top)[:50]),
                       witness="a segment whose length/angle differs between two adjacent sections (e.g. 0 in one, 200 km in the next)")
-    rep.ok(rule, "%d reads of the per-section tables, all inside cur + f*(next - cur)" % n, F.loc, F.qn)
-    rep.floor(rule, n, 12, "reads of per-section tables in the kernel")
+    rep.ok(rule, "%d reads of the per-section tables, all inside one of %d interpolations cur + f*(next - cur)" % (n, len(interps)), F.loc, F.qn)
+    rep.floor(rule, len(interps), 4, "interpolations of per-section tables in the kernel")
 
 
 def nearest_segment_selection(P, rep, rule="K.nearest"):
